@@ -193,4 +193,29 @@ theorem resume_hs {orig : Nat → OrigA} {db : Db} (hi : Inv orig db) (steps : L
   intro a hge
   rw [hm.2.2.2 a (by rw [ha.2.1]; exact hge), ha.2.2 a hge]
 
+/-- headstate returns its resume state (with the wrapped context error) only when the source was cut
+short by a cancellation (`pass (some k)`). -/
+theorem migrate_rerun_cancelled (db : Db) (st : Step) (hr : (migrate db st).2 = .rerun) :
+    ∃ k, st = .pass (some k) := by
+  unfold migrate at hr
+  cases st with
+  | pass emit =>
+    cases emit with
+    | some k => exact ⟨k, rfl⟩
+    | none =>
+      exfalso
+      simp only [Option.getD_none, Nat.min_self, Nat.lt_irrefl, if_false] at hr
+      repeat' split at hr
+      all_goals simp at hr
+  | crash emit sel => exfalso; simp at hr
+  | writeFail emit sel => exfalso; simp at hr
+  | crashWipe k =>
+    exfalso; simp only at hr
+    repeat' split at hr
+    all_goals simp at hr
+  | failWipe k =>
+    exfalso; simp only at hr
+    repeat' split at hr
+    all_goals simp at hr
+
 end Juno.C18.HS
